@@ -7,6 +7,7 @@ import (
 	"fmt"
 	"regexp"
 
+	"github.com/microsoft/yardl/tooling/internal/formatting"
 	"github.com/microsoft/yardl/tooling/internal/validation"
 )
 
@@ -94,6 +95,12 @@ func validateTypeDefinitionNames(env *Environment, errorSink *validation.ErrorSi
 	return env
 }
 
+// The code generators convert member names to snake_case (and from there to UPPER_SNAKE_CASE or PascalCase),
+// so two names that differ only in the case of letters that do not start a word end up as the same identifier.
+func generatedMemberName(name string) string {
+	return formatting.ToSnakeCase(name)
+}
+
 func validateRecordFieldNames(env *Environment, errorSink *validation.ErrorSink) *Environment {
 	Visit(env, func(self Visitor, node Node) {
 		record, ok := node.(*RecordDefinition)
@@ -103,6 +110,7 @@ func validateRecordFieldNames(env *Environment, errorSink *validation.ErrorSink)
 		}
 
 		fields := make(map[string]bool)
+		generatedNames := make(map[string]string)
 
 		for _, field := range record.Fields {
 			if !memberNameRegex.MatchString(field.Name) {
@@ -111,9 +119,12 @@ func validateRecordFieldNames(env *Environment, errorSink *validation.ErrorSink)
 
 			if _, found := fields[field.Name]; found {
 				errorSink.Add(validationError(field, "a field with the name '%s' is already defined on the record '%s'", field.Name, record.Name))
+			} else if other, found := generatedNames[generatedMemberName(field.Name)]; found {
+				errorSink.Add(validationError(field, "the field names '%s' and '%s' on the record '%s' are not distinct in generated code, where both become '%s'", other, field.Name, record.Name, generatedMemberName(field.Name)))
 			}
 
 			fields[field.Name] = true
+			generatedNames[generatedMemberName(field.Name)] = field.Name
 		}
 
 		for _, field := range record.ComputedFields {
@@ -123,9 +134,12 @@ func validateRecordFieldNames(env *Environment, errorSink *validation.ErrorSink)
 
 			if _, found := fields[field.Name]; found {
 				errorSink.Add(validationError(field, "a field or computed field with the name '%s' is already defined on the record '%s'", field.Name, record.Name))
+			} else if other, found := generatedNames[generatedMemberName(field.Name)]; found {
+				errorSink.Add(validationError(field, "the field names '%s' and '%s' on the record '%s' are not distinct in generated code, where both become '%s'", other, field.Name, record.Name, generatedMemberName(field.Name)))
 			}
 
 			fields[field.Name] = true
+			generatedNames[generatedMemberName(field.Name)] = field.Name
 		}
 	})
 
@@ -141,6 +155,7 @@ func validateProtocolSequenceNames(env *Environment, errorSink *validation.Error
 		}
 
 		steps := make(map[string]bool)
+		generatedNames := make(map[string]string)
 
 		for _, step := range protocol.Sequence {
 			if !memberNameRegex.MatchString(step.Name) {
@@ -149,9 +164,12 @@ func validateProtocolSequenceNames(env *Environment, errorSink *validation.Error
 
 			if _, found := steps[step.Name]; found {
 				errorSink.Add(validationError(step, "a sequence step with the name '%s' is already defined on the protocol '%s'", step.Name, protocol.Name))
+			} else if other, found := generatedNames[generatedMemberName(step.Name)]; found {
+				errorSink.Add(validationError(step, "the sequence step names '%s' and '%s' on the protocol '%s' are not distinct in generated code, where both become '%s'", other, step.Name, protocol.Name, generatedMemberName(step.Name)))
 			}
 
 			steps[step.Name] = true
+			generatedNames[generatedMemberName(step.Name)] = step.Name
 		}
 	})
 
